@@ -12,7 +12,7 @@ for l in open('/verif/properties.jsonl'):
     if p['id'] == pid:
         break
 text = {k: p[k] for k in ("id", "title", "statement", "quantifier", "why_tests_cant", "anchors")}
-print(f"""You are a software engineer asked to SEED A REALISTIC DEFECT into a Rust project, for a study of verification tools. Work ONLY inside your own scratch git worktree of the project: {wt} (a detached checkout of the project's current HEAD). Do not read or write anything under /verif or /repo; do not look at other directories under /tmp/seed. There is no network; build with `--offline`; use `export CARGO_TARGET_DIR={wt}/target` (the default) and build/test only the crates you touch and their dependents (`cargo test -p <crate> --offline`), not the whole workspace, to save time and disk.
+print(f"""You are a software engineer asked to SEED A REALISTIC DEFECT into a Rust project, for a study of verification tools. Work ONLY inside your own scratch git worktree of the project: {wt} (a detached checkout of the project's current HEAD). Do not read or write anything under /verif or /repo; do not look at other directories under /tmp/seed. There is no network; build with `--offline`; use `export CARGO_TARGET_DIR={wt}/target` (the default) and build/test only the crates you touch and their dependents (`cargo test -p <crate> --offline`), not the whole workspace, to save time and disk. Disk is tight: ALWAYS also export CARGO_PROFILE_DEV_DEBUG=0 CARGO_PROFILE_TEST_DEBUG=0 CARGO_INCREMENTAL=0 before any cargo command, and delete your target/ directory as soon as you are done.
 
 The project should satisfy this semantic property (given text; study the anchored code):
 {json.dumps(text, indent=1)}
